@@ -435,6 +435,16 @@ pub fn check_case(env: &Env, case: &Case, idx: u64, st: &mut Stats) -> Vec<Viola
             }
             w.neighbours = keep;
         }
+        // Aim the benign fault: in the thread vehicle the I/O event sequence is
+        // the reference world's, so pick an event on which the fault kind can
+        // actually fire (open/read/write) instead of a blind event number.
+        if w.vehicle == Vehicle::Thread && !w.faults.is_empty() {
+            let applicable: Vec<u32> = reference.events.iter().filter(|e| e.op == crate::shim::OP_READ || e.op == crate::shim::OP_WRITE || (e.op == crate::shim::OP_OPEN && w.faults[0].kind == F_EINTR)).map(|e| e.seq).collect();
+            if !applicable.is_empty() {
+                let pick = applicable[(w.faults[0].event as usize ^ (w.hash_seed as usize >> 7)) % applicable.len()];
+                w.faults[0].event = pick as u64;
+            }
+        }
         let w = &w;
         let o = sim::run_world(env, &case.grammar, &case.spec, w);
         st.compiles += 1 + if w.vehicle == Vehicle::Thread { w.neighbours.len() as u64 } else { 0 };
